@@ -69,7 +69,8 @@ func c14Ops(cfg c14Cfg) []c14Op {
 		ops = append(ops, c14Op{nm, "cancel", 0, int64(s + 1)})
 	}
 	ops = append(ops, c14Op{"gov(otherN)", "gov", 0, 1}, c14Op{"gov(otherMax)", "gov", 0, 2})
-	ops = append(ops, c14Op{"vestnow(7)", "vestnow", 0, 7}, c14Op{"vestnow(1000)", "vestnow", 0, 1000})
+	// vestnow(all): the WHOLE claimable Eden balance (the record may become empty — a cleanup path)
+	ops = append(ops, c14Op{"vestnow(7)", "vestnow", 0, 7}, c14Op{"vestnow(1000)", "vestnow", 0, 1000}, c14Op{"vestnow(all)", "vestnow", 0, -1}, c14Op{"B.vestnow(all)", "vestnow", 1, -1})
 	ops = append(ops, c14Op{"B.vest(100)", "vest", 1, 100}, c14Op{"B.claim", "claim", 1, 0}, c14Op{"B.cancel(half)", "cancel", 1, 2})
 	return ops
 }
@@ -482,6 +483,12 @@ func (r *c14Run) apply(ctx sdk.Context, st *c14State, op c14Op, path []string) {
 		}
 		o.eden = post.eden
 	case "vestnow":
+		if op.A == -1 {
+			op.A = o.eden.Int64()
+			if op.A == 0 {
+				return
+			}
+		}
 		err := r.deliver(ctx, &ctypes.MsgVestNow{Creator: addr, Denom: "ueden", Amount: I(op.A)})
 		post := r.observe(ctx, op.Who)
 		r.st.Clauses["vestnow"]++
